@@ -202,6 +202,9 @@ func runC15(c *core.Ctx) {
 		for _, k := range kinds {
 			xr.Reports = append(xr.Reports, gen.XRBlock(r, k, unaligned))
 		}
+		if r.Chance(1, 3) {
+			gen.PrefillXRHeaders(r, xr) // what an earlier Marshal/Unmarshal of since-modified blocks leaves behind
+		}
 		c15Judge(cs, xr)
 	})
 	// (2) random sequences up to 8
@@ -211,6 +214,9 @@ func runC15(c *core.Ctx) {
 		unaligned := r.Chance(1, 12)
 		for i := r.Intn(9); i > 0; i-- {
 			xr.Reports = append(xr.Reports, gen.XRBlock(r, gen.XRKind(r.Intn(int(nk))), unaligned))
+		}
+		if r.Chance(1, 3) {
+			gen.PrefillXRHeaders(r, xr)
 		}
 		c15Judge(cs, xr)
 	})
